@@ -67,6 +67,8 @@ func smallSuite(sems []Sem) []reqSpec {
 		for _, p := range s.Pats {
 			o := originFromPattern(rng, p).String()
 			add("GET", hOrigin, o)
+			add("GET", hOrigin, editedOrigin) // what the handler of the request before has just written over the values it was given
+			add("OPTIONS", hOrigin, editedOrigin, hACRM, "PUT")
 			add("OPTIONS", hOrigin, o, hACRM, "PUT")
 			add("OPTIONS", hOrigin, o, hACRM, "QUERY")
 			add("OPTIONS", hOrigin, o, hACRM, "GET", hACRH, "x-a")
@@ -111,6 +113,7 @@ func probeSuite(sems []Sem) []reqSpec {
 	}
 	for _, o := range origins {
 		add("GET", hOrigin, o)
+		add("GET", hOrigin, editedOrigin) // see smallSuite
 		add("OPTIONS", hOrigin, o)
 		add("POST", hOrigin, o, "X-A", "1")
 		for _, m := range methods {
